@@ -25,6 +25,7 @@ structure TCE (P : Prog) (m : Marks) (pt pu : List Nat) : Prop where
   types : ∀ t ∈ m.types, t ∉ pt → ∀ τ, P.types[t]? = some τ → TyMarked m τ
   tuples : ∀ u ∈ m.tuples, u ∉ pu → ∀ T, P.tuples[u]? = some T → ∀ p ∈ T.fields, p.2 ∈ m.types
   nodup : m.tuples.Nodup
+  nodupT : m.types.Nodup
 
 /-- what a collector may change: type and tuple marks grow, the rest is untouched -/
 structure Ext (m m' : Marks) : Prop where
@@ -41,7 +42,7 @@ theorem Ext.trans {a b c : Marks} (h1 : Ext a b) (h2 : Ext b c) : Ext a c :=
 
 theorem TCE.mono_pending {P : Prog} {m : Marks} {pt pu : List Nat} (h : TCE P m pt pu) (t : Nat) :
     TCE P m (t :: pt) pu :=
-  ⟨fun t' ht' hn => h.types t' ht' (fun hp => hn (List.mem_cons_of_mem _ hp)), h.tuples, h.nodup⟩
+  ⟨fun t' ht' hn => h.types t' ht' (fun hp => hn (List.mem_cons_of_mem _ hp)), h.tuples, h.nodup, h.nodupT⟩
 
 theorem contains_iff {l : List Nat} {a : Nat} : l.contains a = true ↔ a ∈ l := by simp
 
@@ -69,12 +70,12 @@ theorem collectType_spec (P : Prog) : ∀ (fuel t : Nat) (m m' : Marks) (pt pu :
               · exact h
             exact (hI.types t' hm (fun hp => hn (List.mem_cons_of_mem _ hp)) τ hτ).mono hE1.types hE1.tuples,
          fun u hu hn T hT p hp => List.mem_cons_of_mem _ (hI.tuples u hu hn T hT p hp),
-         hI.nodup⟩
+         hI.nodup, List.nodup_cons.mpr ⟨hnot, hI.nodupT⟩⟩
       -- discharging `t` once its entry's references are marked
       have discharge : ∀ (m2 : Marks), TCE P m2 (t :: pt) pu → (∀ τ, P.types[t]? = some τ → TyMarked m2 τ) →
           TCE P m2 pt pu := by
         intro m2 h2 ht
-        refine ⟨fun t' ht' hn τ hτ => ?_, h2.tuples, h2.nodup⟩
+        refine ⟨fun t' ht' hn τ hτ => ?_, h2.tuples, h2.nodup, h2.nodupT⟩
         by_cases he : t' = t
         · subst he; exact ht τ hτ
         · exact h2.types t' ht' (fun hp => by
@@ -106,7 +107,7 @@ theorem collectType_spec (P : Prog) : ∀ (fuel t : Nat) (m m' : Marks) (pt pu :
         | resource n =>
           simp only at h
           cases h
-          refine ⟨discharge _ ⟨hI1.types, hI1.tuples, hI1.nodup⟩ (fun τ' hτ' => ?_), List.mem_cons_self ..,
+          refine ⟨discharge _ ⟨hI1.types, hI1.tuples, hI1.nodup, hI1.nodupT⟩ (fun τ' hτ' => ?_), List.mem_cons_self ..,
             ⟨hE1.types, hE1.tuples, rfl, rfl, rfl⟩⟩
           rw [hτ] at hτ'; cases hτ'
           intro x hx; cases hx
@@ -161,11 +162,11 @@ theorem collectTuple_spec (P : Prog) : ∀ (fuel id : Nat) (m m' : Marks) (pt pu
               · exact (hne h).elim
               · exact h
             exact hI.tuples u hm (fun hp' => hn (List.mem_cons_of_mem _ hp')) T hT p hp,
-         List.nodup_cons.mpr ⟨hnot, hI.nodup⟩⟩
+         List.nodup_cons.mpr ⟨hnot, hI.nodup⟩, hI.nodupT⟩
       have discharge : ∀ (m2 : Marks), TCE P m2 pt (id :: pu) →
           (∀ T, P.tuples[id]? = some T → ∀ p ∈ T.fields, p.2 ∈ m2.types) → TCE P m2 pt pu := by
         intro m2 h2 ht
-        refine ⟨h2.types, fun u hu hn T hT => ?_, h2.nodup⟩
+        refine ⟨h2.types, fun u hu hn T hT => ?_, h2.nodup, h2.nodupT⟩
         by_cases he : u = id
         · subst he; exact ht T hT
         · exact h2.tuples u hu (fun hp => by
@@ -285,7 +286,7 @@ theorem markInstrs_spec (P : Prog) : ∀ (is : List Instr) (m m' : Marks) (q q' 
                 exact (hI.types t ht hn τ hτ).mono (fun x hx => by rw [e1]; exact hx) (fun x hx => by rw [e2]; exact hx),
              fun u hu hn T hT p hp => by
                 rw [e2] at hu; rw [e1]; exact hI.tuples u hu hn T hT p hp,
-             by rw [e2]; exact hI.nodup⟩
+             by rw [e2]; exact hI.nodup, by rw [e1]; exact hI.nodupT⟩
     cases i with
     | function id =>
       simp only [markInstrs] at h
@@ -361,7 +362,7 @@ theorem markFns_spec (P : Prog) : ∀ (fuel : Nat) (q : List Nat) (m m' : Marks)
       · exact e x h
     · rename_i hc
       -- `f` is inserted
-      have hI1 : TCE P { m with fns := f :: m.fns } [] [] := ⟨hI.types, hI.tuples, hI.nodup⟩
+      have hI1 : TCE P { m with fns := f :: m.fns } [] [] := ⟨hI.types, hI.tuples, hI.nodup, hI.nodupT⟩
       cases hFn : P.fns[f]? with
       | none =>
         rw [hFn] at h
@@ -448,7 +449,7 @@ theorem markAll_closed {P : Prog} {e : Nat} {legacy : Bool} {m : Marks} (h : mar
   split at h
   · cases h
   · rename_i m0 h0
-    have hI : TCE P ({} : Marks) [] [] := ⟨(fun _ h => by cases h), (fun _ h => by cases h), List.nodup_nil⟩
+    have hI : TCE P ({} : Marks) [] [] := ⟨(fun _ h => by cases h), (fun _ h => by cases h), List.nodup_nil, List.nodup_nil⟩
     obtain ⟨hI0, h00, hE0⟩ := collectTuple_spec P _ 0 _ m0 [] [] h0 hI
     split at h
     · cases h
@@ -480,7 +481,9 @@ theorem markAll_closed {P : Prog} {e : Nat} {legacy : Bool} {m : Marks} (h : mar
                 fns := ?_
                 types := fun t ht τ hτ => hI4.types t ht (fun h => by cases h) τ hτ
                 tuples := fun u hu T hT => hI4.tuples u hu (fun h => by cases h) T hT
-                builtins := ?_ }
+                builtins := ?_
+                nodupTypes := hI4.nodupT
+                nodupTuples := hI4.nodup }
             · intro f hf F hF
               rw [hfns] at hf
               exact hE4.types _ (hE3.types _ (hF2 f hf F hF))
